@@ -1,0 +1,43 @@
+//go:build verif
+
+package face
+
+import (
+	defn "github.com/named-data/ndnd/fw/defn"
+	"github.com/named-data/ndnd/fw/dispatch"
+	"io"
+)
+
+// VerifMemTransport is an in-memory transport that records frames.
+type VerifMemTransport struct {
+	transportBase
+	Frames [][]byte
+	closed chan struct{}
+}
+
+func NewVerifMemTransport(scope defn.Scope, mtu int) *VerifMemTransport {
+	t := new(VerifMemTransport)
+	t.makeTransportBase(defn.MakeNullFaceURI(), defn.MakeNullFaceURI(), PersistencyPermanent, scope, defn.PointToPoint, mtu)
+	t.running.Store(true)
+	t.closed = make(chan struct{})
+	return t
+}
+func (t *VerifMemTransport) String() string                     { return "VerifMemTransport" }
+func (t *VerifMemTransport) SetPersistency(p Persistency) bool  { t.persistency = p; return true }
+func (t *VerifMemTransport) GetSendQueueSize() uint64           { return 0 }
+func (t *VerifMemTransport) sendFrame(frame []byte) {
+	t.Frames = append(t.Frames, append([]byte(nil), frame...))
+}
+func (t *VerifMemTransport) runReceive() { <-t.closed }
+func (t *VerifMemTransport) Close() {
+	if t.running.Swap(false) {
+		close(t.closed)
+	}
+}
+
+func VerifMakeLinkService(t *VerifMemTransport, opt NDNLPLinkServiceOptions) *NDNLPLinkService {
+	return MakeNDNLPLinkService(t, opt)
+}
+func VerifSendPacket(l *NDNLPLinkService, out dispatch.OutPkt) { sendPacket(l, out) }
+func VerifHandleFrame(l *NDNLPLinkService, frame []byte)        { l.handleIncomingFrame(frame) }
+func VerifReadTlvStream(r io.Reader, onFrame func([]byte)) error { return readTlvStream(r, onFrame, nil) }
